@@ -3,6 +3,7 @@ import Tetro.Spec.Apu
 import Tetro.Lemmas.ApuStatus
 import Tetro.Lemmas.ApuClk
 import Tetro.Lemmas.ApuStatusW
+import Tetro.Lemmas.ApuOff
 /-
 C19 – channel status bits and length counters behave as on a DMG.
 
@@ -710,5 +711,215 @@ theorem c19_on_only_by_trigger (a : Apu) (op : Op) :
 /-- non-vacuity: after New all channels are off; NR22 := F0 (DAC on) then NR24 := 80 (trigger) switches channel 2 on -/
 example : (Apu.new true true).ch2.enabled = false ∧
     (((Apu.new true true).step (.write 0xFF17 0xF0)).step (.write 0xFF19 0x80)).ch2.enabled = true := by decide
+
+
+/-! ### what can switch a channel off -/
+
+/-- the sweep unit's overflow check fails: the first calculation, or the second one made after the
+    frequency update, exceeds 2047 -/
+def SweepOverflow (s : Square) : Prop :=
+  sweepCalc s.sweepIncrease s.shadowFrequency s.sweepShift > 2047 ∨
+  sweepCalc s.sweepIncrease (sweepCalc s.sweepIncrease s.shadowFrequency s.sweepShift) s.sweepShift > 2047
+
+private theorem sq_off_tickLength (s : Square) (h1 : s.enabled = true) (h2 : s.tickLength.enabled = false) :
+    s.lengthEnable = true ∧ s.length > 0 ∧ s.tickLength.length = 0 := by
+  unfold Square.tickLength at h2 ⊢
+  by_cases he : s.lengthEnable = true
+  · have hn : ¬ ((!s.lengthEnable) = true) := by rw [he]; decide
+    rw [if_neg hn] at h2 ⊢
+    by_cases hp : s.length > 0
+    · rw [if_pos hp] at h2 ⊢
+      refine ⟨he, hp, ?_⟩
+      have : (s.enabled && decide (dec8 s.length ≠ 0)) = false := h2
+      rw [h1] at this; simpa using this
+    · rw [if_neg hp] at h2; rw [h1] at h2; cases h2
+  · have hn : (!s.lengthEnable) = true := by simpa using he
+    rw [if_pos hn] at h2; rw [h1] at h2; cases h2
+
+private theorem wv_off_tickLength (s : Wave) (h1 : s.enabled = true) (h2 : s.tickLength.enabled = false) :
+    s.lengthEnable = true ∧ s.length > 0 ∧ s.tickLength.length = 0 := by
+  unfold Wave.tickLength at h2 ⊢
+  by_cases he : s.lengthEnable = true
+  · have hn : ¬ ((!s.lengthEnable) = true) := by rw [he]; decide
+    rw [if_neg hn] at h2 ⊢
+    by_cases hp : s.length > 0
+    · rw [if_pos hp] at h2 ⊢
+      refine ⟨he, hp, ?_⟩
+      have : (s.enabled && decide (dec16 s.length ≠ 0)) = false := h2
+      rw [h1] at this; simpa using this
+    · rw [if_neg hp] at h2; rw [h1] at h2; cases h2
+  · have hn : (!s.lengthEnable) = true := by simpa using he
+    rw [if_pos hn] at h2; rw [h1] at h2; cases h2
+
+private theorem ns_off_tickLength (s : Noise) (h1 : s.enabled = true) (h2 : s.tickLength.enabled = false) :
+    s.lengthEnable = true ∧ s.length > 0 ∧ s.tickLength.length = 0 := by
+  unfold Noise.tickLength at h2 ⊢
+  by_cases he : s.lengthEnable = true
+  · have hn : ¬ ((!s.lengthEnable) = true) := by rw [he]; decide
+    rw [if_neg hn] at h2 ⊢
+    by_cases hp : s.length > 0
+    · rw [if_pos hp] at h2 ⊢
+      refine ⟨he, hp, ?_⟩
+      have : (s.enabled && decide (dec8 s.length ≠ 0)) = false := h2
+      rw [h1] at this; simpa using this
+    · rw [if_neg hp] at h2; rw [h1] at h2; cases h2
+  · have hn : (!s.lengthEnable) = true := by simpa using he
+    rw [if_pos hn] at h2; rw [h1] at h2; cases h2
+
+private theorem calcValue_eq (s : Square) : s.calcValue = sweepCalc s.sweepIncrease s.shadowFrequency s.sweepShift := rfl
+
+private theorem sq_off_tickSweep (s : Square) (h1 : s.enabled = true) (h2 : s.tickSweep.enabled = false) :
+    s.sweepEnabled = true ∧ SweepOverflow s := by
+  unfold Square.tickSweep at h2
+  by_cases he : s.sweepEnabled = true
+  case neg =>
+    have hn : (!s.sweepEnabled) = true := by simpa using he
+    rw [if_pos hn] at h2; rw [h1] at h2; cases h2
+  case pos =>
+    refine ⟨he, ?_⟩
+    have hn : ¬ ((!s.sweepEnabled) = true) := by rw [he]; decide
+    rw [if_neg hn] at h2
+    by_cases c1 : dec8 s.sweepTimer = 0
+    · rw [if_pos c1] at h2
+      by_cases c2 : s.sweepPeriod = 0
+      · rw [if_pos c2] at h2
+        have : s.enabled = false := h2
+        rw [h1] at this; cases this
+      · rw [if_neg c2] at h2
+        generalize hx : ({ s with sweepTimer := s.sweepPeriod } : Square) = x at h2
+        have x1 : x.enabled = true := by rw [← hx]; exact h1
+        have x2 : x.calcValue = sweepCalc s.sweepIncrease s.shadowFrequency s.sweepShift := by rw [← hx]; rfl
+        have x3 : x.sweepIncrease = s.sweepIncrease ∧ x.sweepShift = s.sweepShift := by rw [← hx]; exact ⟨rfl, rfl⟩
+        unfold Square.sweepStep at h2
+        unfold SweepOverflow
+        by_cases c3 : x.calcValue < 2048 ∧ x.sweepShift > 0
+        · rw [if_pos c3] at h2
+          -- second calculation on the stored frequency
+          have e2 : ((x.calcState.storeFreq x.calcValue).calcState).enabled =
+              (x.enabled && decide (x.calcValue ≤ 2047) && decide (sweepCalc x.sweepIncrease x.calcValue x.sweepShift ≤ 2047)) := rfl
+          rw [e2, x1, x3.1, x3.2, x2] at h2
+          simp only [Bool.true_and, Bool.and_eq_false_iff, decide_eq_false_iff_not] at h2
+          rcases h2 with h | h
+          · left; omega
+          · right; omega
+        · rw [if_neg c3] at h2
+          have e1 : x.calcState.enabled = (x.enabled && decide (x.calcValue ≤ 2047)) := rfl
+          rw [e1, x1, x2] at h2
+          simp only [Bool.true_and, decide_eq_false_iff_not] at h2
+          left; omega
+    · rw [if_neg c1] at h2
+      have : s.enabled = false := h2
+      rw [h1] at this; cases this
+
+/-- **C19 (off causes, one clock).**  If a status bit falls during one clock, then: the clock is a
+    length clock and the channel's enabled, non-zero length counter reaches zero in it; or – channel 1
+    only – the clock is a sweep clock (frame-sequencer steps 2 and 6), the sweep unit is active and
+    its overflow check fails. -/
+theorem c19_off_causes_clock (a : Apu) :
+    (a.ch1.enabled = true → a.tickClock.ch1.enabled = false →
+      (LenClockNow a ∧ a.ch1.lengthEnable = true ∧ a.ch1.length > 0 ∧ a.ch1.tickLength.length = 0) ∨
+      (a.ticks % 8192 = 0 ∧ SweepStep a.frameSeqTicks ∧ a.ch1.sweepEnabled = true ∧ SweepOverflow a.ch1)) ∧
+    (a.ch2.enabled = true → a.tickClock.ch2.enabled = false →
+      LenClockNow a ∧ a.ch2.lengthEnable = true ∧ a.ch2.length > 0 ∧ a.ch2.tickLength.length = 0) ∧
+    (a.ch3.enabled = true → a.tickClock.ch3.enabled = false →
+      LenClockNow a ∧ a.ch3.lengthEnable = true ∧ a.ch3.length > 0 ∧ a.ch3.tickLength.length = 0) ∧
+    (a.ch4.enabled = true → a.tickClock.ch4.enabled = false →
+      LenClockNow a ∧ a.ch4.lengthEnable = true ∧ a.ch4.length > 0 ∧ a.ch4.tickLength.length = 0) := by
+  have hl := lts_tickClock a
+  simp only [lts, ltsClocked] at hl
+  refine ⟨fun h1 h2 => ?_, fun h1 h2 => ?_, fun h1 h2 => ?_, fun h1 h2 => ?_⟩
+  · -- channel 1
+    have hc := ch1_tickClock a
+    obtain ⟨t1, t2⟩ := ch1_tickTimer a
+    generalize a.tickTimer.ch1 = t at hc t1 t2
+    simp only [Square.lt, Prod.mk.injEq] at t1
+    simp only [Square.swp, Prod.mk.injEq] at t2
+    by_cases c : a.ticks % 8192 = 0
+    · rw [if_pos c] at hc
+      rw [hc] at h2
+      unfold ch1Seq at h2
+      simp only at h2
+      have ht : t.enabled = true := by rw [t1.1]; exact h1
+      -- after the length part
+      by_cases c1 : a.frameSeqTicks % 2 = 0
+      · rw [if_pos c1] at h2
+        cases hs1 : t.tickLength.enabled
+        · left
+          obtain ⟨l1, l2, l3⟩ := sq_off_tickLength t ht hs1
+          refine ⟨⟨c, c1⟩, by rw [← t1.2.1]; exact l1, by rw [← t1.2.2]; exact l2, ?_⟩
+          have hcg := Square.lt_tickLength_congr t a.ch1 (by simp only [Square.lt, t1.1, t1.2.1, t1.2.2])
+          simp only [Square.lt, Prod.mk.injEq] at hcg
+          rw [← hcg.2.2]; exact l3
+        · right
+          have hsw : t.tickLength.swp = a.ch1.swp := by
+            rw [Square.swp_tickLength]; simp only [Square.swp, t2.1, t2.2.1, t2.2.2.1, t2.2.2.2.1, t2.2.2.2.2.1, t2.2.2.2.2.2]
+          generalize t.tickLength = s1 at h2 hs1 hsw
+          have key : ∀ s2 : Square, s2.enabled = true → s2.swp = a.ch1.swp →
+              (if sub64 a.frameSeqTicks 2 % 4 = 0 then s2.tickSweep else s2).enabled = false →
+              a.ticks % 8192 = 0 ∧ SweepStep a.frameSeqTicks ∧ a.ch1.sweepEnabled = true ∧ SweepOverflow a.ch1 := by
+            intro s2 e2 w2 hf
+            by_cases c2 : sub64 a.frameSeqTicks 2 % 4 = 0
+            · rw [if_pos c2] at hf
+              obtain ⟨o1, o2⟩ := sq_off_tickSweep s2 e2 hf
+              simp only [Square.swp, Prod.mk.injEq] at w2
+              refine ⟨c, c2, by rw [← w2.1]; exact o1, ?_⟩
+              unfold SweepOverflow at o2 ⊢
+              rw [← w2.2.1, ← w2.2.2.1, ← w2.2.2.2.1]; exact o2
+            · rw [if_neg c2] at hf; rw [e2] at hf; cases hf
+          by_cases c3 : sub64 a.frameSeqTicks 7 % 8 = 0
+          · rw [if_pos c3] at h2
+            exact key _ (by rw [Square.en_tickVolumeEnvelope]; exact hs1) (by rw [Square.swp_tickVolumeEnvelope]; exact hsw) h2
+          · rw [if_neg c3] at h2
+            exact key _ hs1 hsw h2
+      · rw [if_neg c1] at h2
+        right
+        have hsw : t.swp = a.ch1.swp := by
+          simp only [Square.swp, t2.1, t2.2.1, t2.2.2.1, t2.2.2.2.1, t2.2.2.2.2.1, t2.2.2.2.2.2]
+        have key : ∀ s2 : Square, s2.enabled = true → s2.swp = a.ch1.swp →
+            (if sub64 a.frameSeqTicks 2 % 4 = 0 then s2.tickSweep else s2).enabled = false →
+            a.ticks % 8192 = 0 ∧ SweepStep a.frameSeqTicks ∧ a.ch1.sweepEnabled = true ∧ SweepOverflow a.ch1 := by
+          intro s2 e2 w2 hf
+          by_cases c2 : sub64 a.frameSeqTicks 2 % 4 = 0
+          · rw [if_pos c2] at hf
+            obtain ⟨o1, o2⟩ := sq_off_tickSweep s2 e2 hf
+            simp only [Square.swp, Prod.mk.injEq] at w2
+            refine ⟨c, c2, by rw [← w2.1]; exact o1, ?_⟩
+            unfold SweepOverflow at o2 ⊢
+            rw [← w2.2.1, ← w2.2.2.1, ← w2.2.2.2.1]; exact o2
+          · rw [if_neg c2] at hf; rw [e2] at hf; cases hf
+        by_cases c3 : sub64 a.frameSeqTicks 7 % 8 = 0
+        · rw [if_pos c3] at h2
+          exact key _ (by rw [Square.en_tickVolumeEnvelope]; exact ht) (by rw [Square.swp_tickVolumeEnvelope]; exact hsw) h2
+        · rw [if_neg c3] at h2
+          exact key _ ht hsw h2
+    · rw [if_neg c] at hc
+      rw [hc, t1.1, h1] at h2; cases h2
+  · by_cases c : a.ticks % 8192 = 0 ∧ a.frameSeqTicks % 2 = 0
+    · rw [if_pos c] at hl
+      simp only [Prod.mk.injEq] at hl
+      have e := hl.1; simp only [Square.lt, Prod.mk.injEq] at e
+      exact ⟨c, sq_off_tickLength a.ch2 h1 (by rw [← e.1]; exact h2)⟩
+    · rw [if_neg c] at hl
+      simp only [Prod.mk.injEq] at hl
+      have e := hl.1; simp only [Square.lt, Prod.mk.injEq] at e
+      rw [e.1, h1] at h2; cases h2
+  · by_cases c : a.ticks % 8192 = 0 ∧ a.frameSeqTicks % 2 = 0
+    · rw [if_pos c] at hl
+      simp only [Prod.mk.injEq] at hl
+      have e := hl.2.1; simp only [Wave.lt, Prod.mk.injEq] at e
+      exact ⟨c, wv_off_tickLength a.ch3 h1 (by rw [← e.1]; exact h2)⟩
+    · rw [if_neg c] at hl
+      simp only [Prod.mk.injEq] at hl
+      have e := hl.2.1; simp only [Wave.lt, Prod.mk.injEq] at e
+      rw [e.1, h1] at h2; cases h2
+  · by_cases c : a.ticks % 8192 = 0 ∧ a.frameSeqTicks % 2 = 0
+    · rw [if_pos c] at hl
+      simp only [Prod.mk.injEq] at hl
+      have e := hl.2.2; simp only [Noise.lt, Prod.mk.injEq] at e
+      exact ⟨c, ns_off_tickLength a.ch4 h1 (by rw [← e.1]; exact h2)⟩
+    · rw [if_neg c] at hl
+      simp only [Prod.mk.injEq] at hl
+      have e := hl.2.2; simp only [Noise.lt, Prod.mk.injEq] at e
+      rw [e.1, h1] at h2; cases h2
 
 end Tetro.C19
